@@ -138,10 +138,76 @@ def varargs_safe_helper(R, prefix):
                 "%s returns a tuple normalised by get_args_tuple(..., %s) on every path" % (name, d),
                 "%s can return a key that did not go through get_args_tuple with the defaults (%s): a call that omits a defaulted argument and a call that spells "
                 "it out get different keys" % (name, "; ".join(q.src(r)[:60] for r in raw)))
+        kw_apart(R, f, cfg, calls, k, prefix)
         R.check(ok and n_mixed == 1 and len(calls) == 2, prefix + ".VARARGS-SAFE", f.qualname, R.site(f),
                 "%s matches positional names only against as many positional arguments as there are names; overflow (*varargs) is keyed as given, "
                 "keyword-only arguments are normalised separately" % name,
                 "%s can match keyword-only names against positional overflow" % name)
+
+
+def kw_apart(R, f, cfg, calls, k, prefix):
+    """qcore's get_args_tuple appends the keywords it is given that are not parameter names as
+    (name, value) pairs right after the positional values; when the function takes *varargs too, a
+    positional argument that is such a pair is indistinguishable from the keyword.  So (a) the
+    keywords that go to **kwargs must be taken out of the mapping handed to get_args_tuple, and
+    (b) they must be appended to the key behind a separator no argument can be equal to."""
+    mod = f.module
+    sentinels = set()
+    for st in mod.tree.body:
+        if isinstance(st, ast.Assign) and len(st.targets) == 1 and isinstance(st.targets[0], ast.Name) and isinstance(st.value, ast.Call) \
+                and q.call_name(st.value) in ("object", "MarkerObject"):
+            sentinels.add(st.targets[0].id)
+    # E: locals holding the names of the surplus keywords (computed from the mapping with a `not in` filter)
+    extras = set()
+    for st in q.scope_nodes(f.node):
+        if isinstance(st, ast.Assign) and len(st.targets) == 1 and isinstance(st.targets[0], ast.Name):
+            comps = [c for c in ast.walk(st.value) if isinstance(c, (ast.GeneratorExp, ast.ListComp, ast.SetComp))]
+            for c in comps:
+                if any(q.src(g.iter) in (k, k + ".keys()", "%s.items()" % k) for g in c.generators) and \
+                        any(isinstance(o, ast.NotIn) for g in c.generators for i in g.ifs for cmp_ in ast.walk(i) if isinstance(cmp_, ast.Compare) for o in cmp_.ops):
+                    extras.add(st.targets[0].id)
+    # the mapping is narrowed to the parameters: k = {... for ... in k if ... not in E}
+    narrow = []
+    for n in cfg.nodes:
+        st = n.ast if n.kind == "stmt" else None
+        if isinstance(st, ast.Assign) and len(st.targets) == 1 and q.src(st.targets[0]) == k and isinstance(st.value, ast.DictComp):
+            if any(isinstance(o, ast.NotIn) and q.src(cmp_.comparators[0]) in extras
+                   for g in st.value.generators for i in g.ifs for cmp_ in ast.walk(i) if isinstance(cmp_, ast.Compare) for o in cmp_.ops):
+                narrow.append(n)
+
+    def safe_edge(e):
+        nd = cfg.nodes[e.src]
+        if nd.kind == "test" and e.label == "F":
+            kk, ss, pos = q.atom_test(nd.ast)
+            if kk == "truth" and pos and (ss == k or ss in extras):
+                return False            # no keywords at all / no surplus keyword: nothing to keep apart
+        if nd.kind == "test" and e.label == "T":
+            kk, ss, pos = q.atom_test(nd.ast)
+            if kk == "truth" and not pos and (ss == k or ss in extras):
+                return False
+        return True
+    path = cfg.find_path([cfg.entry], [n for n, c in calls], N, cut_nodes=narrow, keep_edge=safe_edge)
+    R.check(path is None and bool(calls), prefix + ".KW-APART", f.qualname + ":narrowed", R.site(f),
+            "%s hands get_args_tuple only keywords that name parameters (surplus keywords are taken out first)" % f.name,
+            "%s can hand get_args_tuple keywords that do not name a parameter: it appends them to the key as (name, value) pairs right after the positional "
+            "values, so for a function with *args and **kwargs f(1, ('a', 2)) and f(1, a=2) get the same key and one call receives the other's result" % f.name,
+            cfg.fmt_path(path) if path else None)
+    # (b) every returned key carries the surplus keywords behind a sentinel
+    sent_locals = set()
+    for st in q.scope_nodes(f.node):
+        if isinstance(st, ast.Assign) and len(st.targets) == 1 and isinstance(st.targets[0], ast.Name):
+            v = st.value
+            lead = v
+            while isinstance(lead, ast.BinOp) and isinstance(lead.op, ast.Add):
+                lead = lead.left
+            if isinstance(lead, ast.Tuple) and lead.elts and isinstance(lead.elts[0], ast.Name) and lead.elts[0].id in sentinels:
+                sent_locals.add(st.targets[0].id)
+    rets = [nn for nn in q.scope_nodes(f.node) if isinstance(nn, ast.Return) and nn.value is not None]
+    bad = [r for r in rets if not (q.names_loaded(r.value) & (sent_locals | sentinels))]
+    R.check(bool(rets) and not bad and bool(sentinels), prefix + ".KW-APART", f.qualname + ":separator", R.site(f, bad[0] if bad else None),
+            "every key %s returns carries the surplus keywords behind a module-level sentinel object" % f.name,
+            "%s returns a key (%s) in which the surplus keywords are not set off by a sentinel that no argument can equal: a positional argument that "
+            "looks like a (name, value) pair is taken for the keyword" % (f.name, "; ".join(q.src(r)[:50] for r in bad) or "no sentinel defined"))
 
 
 def peeled_for_keyfn(R, keyfn_owner, keyfn_name, site_fi):
@@ -250,6 +316,19 @@ def argcover_rule(R, prefix, only=None):
         oks = len(sv) == 1 and sv[0][0] == "expr" and isinstance(sv[0][1], ast.Call) and q.call_name(sv[0][1]) == "inspect.getfullargspec"
         R.check(oks, prefix + ".ARGCOVER", key + ":spec", site, "%s is inspect.getfullargspec of the wrapped function" % spec,
                 "%s is not the full argspec of the wrapped function" % spec)
+        # ... the innermost one: under stacked decorators the directly wrapped callable is a generic wrapper(*args, **kwargs), whose
+        # signature normalises nothing
+        if oks:
+            sarg = sv[0][1].args[0] if sv[0][1].args else None
+            owner_ = closure_assign(f, spec)[0]
+            if isinstance(sarg, ast.Name) and owner_ is not None:
+                av = [v for k_, v in common.assigned_values(owner_.node, sarg.id) if k_ == "expr"]
+                sarg = av[0] if len(av) == 1 else sarg
+            oko = isinstance(sarg, ast.Call) and (q.call_name(sarg) or "").split(".")[-1] == "get_original_fn"
+            R.check(oko, prefix + ".ARGCOVER", key + ":spec-innermost", site, "the argspec is taken from get_original_fn(<decorated function>)",
+                    "the argspec is taken from `%s`, not from get_original_fn(...): stacked on another wrapping decorator (alru_cache, acached_per_instance, "
+                    "functools.wraps) the key is built from the wrapper's (*args, **kwargs) signature - positional / keyword / default spellings of one call "
+                    "get different keys" % (q.src(sarg) if sarg is not None else "?"))
         # K is the kwargs of the same call
         R.check(isinstance(K, ast.Name), prefix + ".ARGCOVER", key + ":kwargs", site, "keyword arguments are passed to get_args_tuple", "keyword arguments are not passed to get_args_tuple")
         # ... and positional / keyword arguments are not exchanged on the way
